@@ -87,20 +87,23 @@ def _t1(ctx: Context, finder: str, handler: str, tables: dict) -> int:
     hf = ctx.func(handler)
     short = finder.split(".")[-2] + ".async_find"
     # futures created here
-    futs = {}
-    for n in cfg.nodes:
-        if n.kind == "stmt" and isinstance(n.ast, ast.Assign) and isinstance(n.ast.value, ast.Call):
-            c = n.ast.value
-            if isinstance(c.func, ast.Attribute) and c.func.attr == "create_future" and isinstance(n.ast.targets[0], ast.Name):
-                futs[n.ast.targets[0].id] = n
+    # by VALUE: an awaited name whose value term is a create_future() call (through any chain of copies / helper results)
+    def is_future(t) -> bool:
+        t = strip_sites(t)
+        return t[0] == "call" and t[1][0] == "attr" and t[1][2] == "create_future"
+
     awaited = []
+    fut_terms = {}
     for n in cfg.nodes:
         for e in n.exprs:
             if e is None:
                 continue
             for sub in walk_expr(e):
-                if isinstance(sub, ast.Await) and isinstance(sub.value, ast.Name) and sub.value.id in futs:
-                    awaited.append((n, sub.value.id))
+                if isinstance(sub, ast.Await) and isinstance(sub.value, ast.Name):
+                    t = T.of(cfg, n, sub.value)
+                    if is_future(t):
+                        awaited.append((n, sub.value.id))
+                        fut_terms[sub.value.id] = t
     if not awaited:
         ck.unknown("C19.T1", f"{short}: no awaited create_future() result found", f.loc())
         return 0
@@ -124,11 +127,15 @@ def _t1(ctx: Context, finder: str, handler: str, tables: dict) -> int:
     for an, var in awaited:
         # registration nodes: a call  <recv>.append(var) / <recv>.add(var)  or  self.T[k] = [..var..]
         regs = []
+        ft = fut_terms[var]
+
+        def is_var(n, a) -> bool:
+            # the awaited future itself: the same name, or another name for the same create_future() call site
+            return isinstance(a, ast.Name) and (a.id == var or T.of(cfg, n, a) == ft)
+
         for n in cfg.nodes:
             for c in ctx.calls(n):
-                if isinstance(c.func, ast.Attribute) and c.func.attr in ("append", "add") and any(
-                    isinstance(a, ast.Name) and a.id == var for a in c.args
-                ):
+                if isinstance(c.func, ast.Attribute) and c.func.attr in ("append", "add") and any(is_var(n, a) for a in c.args):
                     recv = T.of(cfg, n, c.func.value)
                     for tb in _self_tables_in(recv):
                         regs.append((n, tb))
@@ -136,9 +143,7 @@ def _t1(ctx: Context, finder: str, handler: str, tables: dict) -> int:
                 for tg in n.ast.targets:
                     if isinstance(tg, ast.Subscript):
                         d = dotted(tg.value)
-                        if d and d.startswith("self.") and any(
-                            isinstance(x, ast.Name) and x.id == var for x in ast.walk(n.ast.value)
-                        ):
+                        if d and d.startswith("self.") and any(is_var(n, x) for x in ast.walk(n.ast.value)):
                             regs.append((n, d.split(".", 1)[1]))
         good = [(n, tb) for n, tb in regs if tb in read_tables]
         pass_edges = []
